@@ -187,13 +187,13 @@ fn main() {
         };
         let ck = case["loom_checkpoint"].as_str().map(std::path::PathBuf::from);
         let tier = case["tier"].as_str().unwrap_or("quick").to_string();
-        let r = harness::spawn_child(&prop, &tier, &job, ck.as_deref(), "deadlock");
+        let r = harness::spawn_child(&prop, &tier, &job, ck.as_deref().map(|p| (p, u64::MAX / 4)), "deadlock");
         match r {
             harness::ChildResult::Ok { schedules, .. } => {
                 println!("replay: property held ({schedules} schedules from the checkpoint on)");
                 std::process::exit(0)
             }
-            harness::ChildResult::Violation { key, what } => {
+            harness::ChildResult::Violation { key, what, .. } => {
                 println!("replay: VIOLATION reproduced: {key} :: {what}");
                 std::process::exit(1)
             }
